@@ -36,7 +36,7 @@ def bounds(tier):
 
 def goals(tier):
     return ["accepts:" + c.__name__ for c in gen.kit_classes()] + [ "accepted-with-extra-site", "module-kind", "vector-kind", "234r-style", "neighbour-kit-structure-accepted",
-            "mutated-letter-accepted", "registry-pair", "generic-pair", "degenerate-far-side-is-a-site", "degenerate-far-side-is-not-a-site", "linear-molecule-accepted", "linear-molecule-rejected", "record-produced-along-another-route", "three-prime-overhang-enzyme"]
+            "mutated-letter-accepted", "registry-pair", "generic-pair", "degenerate-far-side-is-a-site", "degenerate-far-side-is-not-a-site", "linear-molecule-accepted", "linear-molecule-rejected", "record-produced-along-another-route", "three-prime-overhang-enzyme", "enzyme-cutting-inside-its-site"]
 
 
 # ---------------------------------------------------------------------------------------------
@@ -270,6 +270,25 @@ def unit_three_prime(st, enz, tier):
     st.sample(dict(family="three-prime", enz=enz, kind="module", rotation=1))
 
 
+def unit_inside(st, enz, tier):
+    """generic module classes over enzymes that cut inside their own site (the overhang is part of the site)"""
+    g = dict(gen.inside_cutters())[enz]
+    M, V = gen.generic_classes(enz)
+    gen.prime([M])
+    for blen in (2, 6):
+        body = gen.word(0, 7 + blen, blen, [g.site, g.rsite])
+        s = g.site + body + g.rsite + gen.word(1, 31, 5, [g.site, g.rsite])
+        if rm.count_sites(s, g) != 2:
+            st.filtered += 1
+            continue
+        sc = dict(family="inside", enz=enz, cls=M.__name__, seq=s)
+        if check_pair(st, M, s, sc, range(len(s))):
+            st.goal("enzyme-cutting-inside-its-site")
+        else:
+            st.violation("typing", "generic-module-rejects-its-own-instance", sc, "accepted", "rejected")
+    st.sample(dict(family="inside", enz=enz, rotation=1))
+
+
 def three_prime_menu(tier):
     allg = gen.three_prime_enzymes()
     if tier == "thorough":
@@ -281,7 +300,7 @@ def three_prime_menu(tier):
 
 
 def units(tier):
-    us = [("three-prime", e) for e in three_prime_menu(tier)]
+    us = [("three-prime", e) for e in three_prime_menu(tier)] + [("inside", n) for n, _ in gen.inside_cutters()]
     cls = gen.kit_classes()
     for c in cls:
         us.append(("instances", c.__name__))
@@ -301,6 +320,8 @@ def run_unit(unit, st, tier):
     kind, arg = unit
     if kind == "three-prime":
         return unit_three_prime(st, arg, tier)
+    if kind == "inside":
+        return unit_inside(st, arg, tier)
     allcls = gen.prime()
     names = {c.__name__ for c in allcls}
     if kind == "instances":
@@ -417,6 +438,11 @@ def extra_coverage(tier, st):
 
 def replay(scn, sub, st):
     fam = scn["family"]
+    if fam == "inside":
+        cls = gen.generic_classes(scn["enz"])[0]
+        gen.prime([cls])
+        check_pair(st, cls, scn["seq"], {k: v for k, v in scn.items() if k != "rotation"}, [scn.get("rotation", 0)])
+        return
     if fam == "three-prime":
         cls = part3(scn["enz"], scn["kind"], tuple(scn["signature"]))
         gen.prime([cls])
